@@ -88,12 +88,31 @@ def run_job(job):
             a = C * ref.M.cos(H * math.pi / 180.0)
             b = C * ref.M.sin(H * math.pi / 180.0)
             lin = ref.oklab_to_linear(L, a, b)
-            rounds = [SNum(x) for x in list(eng.round_log.values())[-3:]]
-            eng.oblige("three channels rounded", sbool(len(rounds) == 3))
-            for ch, x, e in zip("rgb", rounds, lin):
+            def round_arg(o):
+                """the pre-rounding term of the round() result that this output channel is (a clamp of), if any"""
+                if not isinstance(o, SNum):
+                    return None
+                stack, seen = [o.t], set()
+                while stack:
+                    t = stack.pop()
+                    if t.get_id() in seen:
+                        continue
+                    seen.add(t.get_id())
+                    if t.get_id() in eng.round_log:
+                        return SNum(eng.round_log[t.get_id()])
+                    stack.extend(t.children())
+                return None
+
+            for ch, o, e in zip("rgb", got, lin):
                 clipped = symx.smax(0.0, symx.smin(1.0, e))
                 want = ref.srgb_gamma(clipped) * 255
-                eng.oblige("%s: pre-rounding value == 255 * gamma(clip(reference linear value))" % ch, close(x, want, Fraction(1, 10 ** 6)))
+                x = round_arg(o)
+                if x is not None:
+                    eng.oblige("%s: pre-rounding value == 255 * gamma(clip(reference linear value))" % ch, close(x, want, Fraction(1, 10 ** 6)))
+                else:
+                    # the channel is concrete on this path (its linear value was clipped to a constant): nearest 8-bit value of the reference
+                    eng.oblige("%s: channel is the nearest 8-bit value of 255 * gamma(clip(reference linear value))" % ch,
+                               close(lift(o), want, Fraction(1, 2) + Fraction(1, 10 ** 6)))
             if kind == "inverse-special":
                 eng.oblige("L=0, C=0 -> black", implies(conj(L == 0, C == 0), eq_rgb(got, (0, 0, 0))))
                 eng.oblige("L=1, C=0 -> white", implies(conj(L == 1, C == 0), eq_rgb(got, (255, 255, 255))))
